@@ -562,6 +562,11 @@ Context * Context::createChildRuntime(Context& root, uint8_t recursion) const
 {
   assert(recursion > 0);
   Context * runtime = new Context(*this);
+  /* the function runs for the calling instance, which can be a clone of the
+   * context that parsed it: stop flag and streams are those of the caller */
+  runtime->_root = root._root;
+  runtime->_sout = root._sout;
+  runtime->_serr = root._serr;
   runtime->_fctm = root._fctm;
   runtime->_recursion = recursion;
   /* copy table of symbols with new empty values */
